@@ -129,6 +129,14 @@ int openFdCount()
 			n++;
 	return n;
 }
+int openAcceptedCount()
+{
+	int n = 0;
+	for (int i = 0; i < FDN; i++)
+		if (eps[i].st == Ep::CONN && eps[i].accepted)
+			n++;
+	return n;
+}
 int openConnCount()
 {
 	int n = 0;
